@@ -87,10 +87,11 @@ def render(prog, nested, dotted_mods, width, incase=False, wmap=None, asexpr=Fal
     f = prog["first"]
     units = {f["u"]} | {m["u"] for m in prog["mods"]}
     pre = []
+    # spec/DipModify.tla CustomDefs: equivalent definitions of the custom symbol; the nested rendering uses the scaled ones
     if "[len2]" in units:
-        pre.append("$unit len = 2 m")
+        pre.append("$unit len = 200 cm" if nested else "$unit len = 2 m")
     if "[len5]" in units:
-        pre.append("$unit len = 5 m")
+        pre.append("$unit len = 5000 mm" if nested else "$unit len = 5 m")
     if incase:
         # the whole program inside a selected clause of a case block
         body = render(prog, nested, dotted_mods, width).split("\n")
